@@ -290,6 +290,15 @@ func oracleC09(c *HCase) (f *ev.Failure, st hstats) {
 				csproto.Reset(live)
 				model = dynamicpb.NewMessage(mt.Desc)
 				sizedBefore, lenChanged, rtTouched = false, false, false
+			case "cloneaside":
+				// a copy is taken and put aside; the program goes on with the ORIGINAL (taking a copy reads the
+				// message, it must not leave anything behind in it)
+				_ = csproto.Clone(live)
+				if mt.Info.Runtime == "legacy" {
+					// golang/protobuf clones a pre-APIv2 message that has Marshal / Unmarshal methods by marshaling it:
+					// for these types a Clone IS a Marshal by the runtime (recorded finding: the size it caches stays)
+					rtTouched, sizedBefore = true, true
+				}
 			case "clone":
 				live = csproto.Clone(live)
 				sizedBefore, lenChanged, rtTouched = false, false, false // the copy starts with an empty cache
@@ -395,10 +404,10 @@ func freshFails(mt *MsgType, model *dynamicpb.Message) bool {
 
 var c09KindsPlainChild = []string{"copychild", "copychild", "copychild", "copyfield", "rtsizechild", "rtsizechild", "rtsizechild", "marshal", "marshalto", "csmarshal", "size", "unmarshal", "reset"}
 
-var c09Kinds = []string{"rtsizechild", "copyfield", "copyfield", "copyfield", "copychild", "copychild", "truncate", "size", "marshal", "marshal", "marshalto", "cssize", "csmarshal", "rtsize", "rtmarshal", "unmarshal", "reset", "clone"}
+var c09Kinds = []string{"cloneaside", "rtsizechild", "copyfield", "copyfield", "copyfield", "copychild", "copychild", "truncate", "size", "marshal", "marshal", "marshalto", "cssize", "csmarshal", "rtsize", "rtmarshal", "unmarshal", "reset", "clone"}
 
 func TestC09(t *testing.T) {
-	rec := ev.New("C09", "case = one live message of a generated type + a pool of 2..4 generated values + a program of <= 25 ops over {copy a field (or a field of an existing child) from a pool value = set / clear / grow / shrink through plain reflection stores, empty a repeated field in place (non-nil slice of length 0), Size, Marshal, MarshalTo, csproto.Size, csproto.Marshal, the owning runtime's own Size and Marshal - on the message, or directly on a child of a well-known type (1 in 8 programs target types with such a child) -, Unmarshal(pool value), Reset, Clone (continue on the clone)}; invariant after every Marshal/MarshalTo/csproto.Marshal: the bytes equal Marshal of a FRESH message populated from the model of the current contents (up to map-entry order when a map has >= 2 entries), no op panics; additionally <= 14-op histories through csproto on a plain gogo message generated with gogo's sizer but without its marshaler plug-in (gogo's test.NinOptStruct: Size() method + table-driven XXX_Marshal reading nested size caches), oracle = gogo's Marshal of a fresh deep copy; the concurrent clause runs in a -race binary (TestC09Race); non-trivial = a Marshal* preceded by a Size/Marshal (own, csproto's or the runtime's) and a later mutation that changed the encoded length; distinct by program")
+	rec := ev.New("C09", "case = one live message of a generated type + a pool of 2..4 generated values + a program of <= 25 ops over {copy a field (or a field of an existing child) from a pool value = set / clear / grow / shrink through plain reflection stores, empty a repeated field in place (non-nil slice of length 0), Size, Marshal, MarshalTo, csproto.Size, csproto.Marshal, the owning runtime's own Size and Marshal - on the message, or directly on a child of a well-known type (1 in 8 programs target types with such a child) -, Unmarshal(pool value), Reset, Clone (continue on the clone), Clone (put the copy aside, continue on the original)}; invariant after every Marshal/MarshalTo/csproto.Marshal: the bytes equal Marshal of a FRESH message populated from the model of the current contents (up to map-entry order when a map has >= 2 entries), no op panics; additionally <= 14-op histories through csproto on a plain gogo message generated with gogo's sizer but without its marshaler plug-in (gogo's test.NinOptStruct: Size() method + table-driven XXX_Marshal reading nested size caches), oracle = gogo's Marshal of a fresh deep copy; the concurrent clause runs in a -race binary (TestC09Race); non-trivial = a Marshal* preceded by a Size/Marshal (own, csproto's or the runtime's) and a later mutation that changed the encoded length; distinct by program")
 	defer rec.Write()
 	useRecorder(rec)
 	defer func() { t.Log(rec.Summary()); fmt.Print(rec.SurveyReport()) }()
